@@ -72,6 +72,21 @@ def streams_for(prop):
         import ref_build
         S.append(dict(name="build", gen=gen_build.gen_build, impl=impl_build.run, oracle=ref_build.check_case,
                       always_oracle=True))
+    elif prop == "C19":
+        import gen_export
+        import gen_build
+        import impl_build
+        import impl_export
+        import ref_export
+        S.append(dict(name="export", gen=gen_export.gen_export, impl=impl_export.run, oracle=ref_export.check_export,
+                      always_oracle=True))
+        S.append(dict(name="defs", gen=gen_build.gen_defs, impl=impl_build.run, oracle=None))
+    elif prop == "C20":
+        import gen_export
+        import impl_export
+        import ref_export
+        S.append(dict(name="plot", gen=gen_export.gen_plot, impl=impl_export.run, oracle=ref_export.check_plot,
+                      always_oracle=True))
     elif prop in ("C11", "C12"):
         import gen_table
         import impl_table
@@ -120,6 +135,8 @@ PROPS = {
     "C06": dict(title="indexing by item labels"),
     "C18": dict(title="systems built from definitions and files"),
     "C11": dict(title="DataFrame import is faithful to labels"),
+    "C19": dict(title="exports reproduce every flow and stock"),
+    "C20": dict(title="Sankey links and plotted lines"),
     "C12": dict(title="import refuses incomplete or inconsistent data"),
 }
 
@@ -246,6 +263,10 @@ def replay_known(kf):
     w = kf.get("witness")
     if not w:
         return False
+    if w.get("runner") == "export":
+        import impl_export
+        out = impl_export.run(w["lines"])
+        return bool(out) and out[-1] == w["defective_observation"]
     if w.get("runner") == "table":
         import impl_table
         lines, out = impl_table.run(w["specs"])
